@@ -22,6 +22,25 @@ pub fn tsc_duration_since(later: u64, earlier: u64, frequency: u64) -> u128 {
         .picos
 }
 
+/// `Timestamp::duration_since` (the tagged enum the sampling loop uses) on two
+/// OS timestamps `span` apart, the earlier one `offset` after an arbitrary
+/// `Instant`; `None` if the platform's `Instant` cannot represent them.
+pub fn os_timestamp_duration_since(offset: Duration, span: Duration) -> Option<u128> {
+    use crate::time::Timestamp;
+    let earlier = std::time::Instant::now().checked_add(offset)?;
+    let later = earlier.checked_add(span)?;
+    Some(Timestamp::Os(later).duration_since(Timestamp::Os(earlier), Timer::Os).picos)
+}
+
+/// `Timestamp::duration_since` on two TSC timestamps.
+pub fn tsc_timestamp_duration_since(later: u64, earlier: u64, frequency: u64) -> u128 {
+    use crate::time::Timestamp;
+    let frequency = NonZeroU64::new(frequency).expect("frequency must be non-zero");
+    Timestamp::Tsc(TscTimestamp { value: later })
+        .duration_since(Timestamp::Tsc(TscTimestamp { value: earlier }), Timer::Tsc { frequency })
+        .picos
+}
+
 /// `FineDuration::from(Duration)` in picoseconds.
 pub fn fine_from_duration(duration: Duration) -> u128 {
     FineDuration::from(duration).picos
